@@ -189,10 +189,34 @@ def _axis_descr(prefix, refs):
     return out
 
 
+def _axes_from_opts(o):
+    out = ""
+    for _ in range(int(o.get("nax", 0))):
+        attr = o.get("attr", "STD_AXIS")
+        out += f" /begin AXIS_DESCR {attr} NO_INPUT_QUANTITY NO_COMPU_METHOD 2 0 100"
+        if attr in ("COM_AXIS", "RES_AXIS"):
+            out += " AXIS_PTS_REF ax0"
+        if attr == "CURVE_AXIS":
+            out += " CURVE_AXIS_REF cv0"
+        if attr == "FIX_AXIS":
+            out += " FIX_AXIS_PAR 0 1 2"
+        out += " /end AXIS_DESCR"
+    return out
+
+
 def render_elem(e):
     k, n, c = e["kind"], e["name"], e.get("c", 0)
     r = e.get("refs", {})
     li = f"\"c{c}\""
+    o = e.get("opts") or {}
+    if k in ("CHARACTERISTIC", "TYPEDEF_CHARACTERISTIC") and "ctype" in o:
+        head = f"/begin {k} {n} {li} {o['ctype']} " + ("0x0 " if k == "CHARACTERISTIC" else "") + "rl0 0 NO_COMPU_METHOD 0 100"
+        return head + _axes_from_opts(o) + f" /end {k}"
+    if k in ("GROUP", "FUNCTION") and o.get("emptylists"):
+        if k == "GROUP":
+            return f"/begin GROUP {n} {li} /begin REF_CHARACTERISTIC /end REF_CHARACTERISTIC /begin REF_MEASUREMENT /end REF_MEASUREMENT /begin SUB_GROUP /end SUB_GROUP /begin FUNCTION_LIST /end FUNCTION_LIST /end GROUP"
+        return (f"/begin FUNCTION {n} {li} /begin DEF_CHARACTERISTIC /end DEF_CHARACTERISTIC /begin IN_MEASUREMENT /end IN_MEASUREMENT "
+                "/begin SUB_FUNCTION /end SUB_FUNCTION /end FUNCTION")
 
     def one(site, default):
         v = r.get(site)
@@ -242,7 +266,8 @@ def render_elem(e):
         return f"/begin TYPEDEF_BLOB {n} {li} 4 /end TYPEDEF_BLOB"
     if k == "TYPEDEF_STRUCTURE":
         comps = r.get("TYPEDEF_STRUCTURE/STRUCTURE_COMPONENT.component_type") or []
-        body = "".join(f" /begin STRUCTURE_COMPONENT comp{i} {t} {i * 4} /end STRUCTURE_COMPONENT" for i, t in enumerate(comps))
+        cnames = o.get("compnames") or [f"comp{i}" for i in range(len(comps))]
+        body = "".join(f" /begin STRUCTURE_COMPONENT {cnames[i]} {t} {i * 4} /end STRUCTURE_COMPONENT" for i, t in enumerate(comps))
         return f"/begin TYPEDEF_STRUCTURE {n} {li} 64{body} /end TYPEDEF_STRUCTURE"
     if k == "INSTANCE":
         ow_c = r.get("INSTANCE/OVERWRITE/CONVERSION.name")
@@ -412,6 +437,15 @@ def extract(module_tree):
     if module_tree.get("variant_coding"):
         add("VARIANT_CODING", module_tree["variant_coding"])
     return {"elems": elems}
+
+
+def components(module_tree):
+    """[[TYPEDEF_STRUCTURE name, component name, component type]]"""
+    out = []
+    for ts in module_tree.get("typedef_structure") or []:
+        for sc in ts.get("structure_component") or []:
+            out.append([_s(ts.get("name")), _s(sc.get("name")), _s(sc.get("component_type"))])
+    return out
 
 
 def module_of(a2l_tree):
